@@ -313,6 +313,20 @@ func runC14(c *Ctx) {
 			continue
 		}
 		nTrue++
+		if _, isC := ConstBool(lf.Val); !isC {
+			// `return kind == "pre-download" || kind == "become-operational"`: the value returned is one of the admitted tests itself
+			cd := Decompose(lf.Val)
+			isOne := false
+			for _, a := range irrClause {
+				if a.Match(cd) == PolTrue {
+					isOne = true
+				}
+			}
+			if isOne {
+				c.Holds(fmt.Sprintf("overlord/snapstate.isIrrelevantChange#true#%d", nTrue), lf.Pos(), "returns the truth of an admitted test")
+				continue
+			}
+		}
 		c.GuardedFlow(fmt.Sprintf("overlord/snapstate.isIrrelevantChange#true#%d", nTrue), irr, lf, []Clause{irrClause}, nil)
 	}
 	// no other kind comparison than the two reviewed ones
@@ -543,7 +557,8 @@ manyDone:
 	// SnapsAffectedByTask: snap-setup first, then the registries
 	sab := P.Func("overlord/snapstate.SnapsAffectedByTask")
 	c.touch(sab)
-	hasSetup := len(CallSites(sab, P.FuncObj("overlord/snapstate.TaskSnapSetup"))) > 0
+	setupCalls, _ := P.CallSitesDeep(sab, P.FuncObj("overlord/snapstate.TaskSnapSetup"))
+	hasSetup := len(setupCalls) > 0
 	c.Check(hasSetup, "overlord/snapstate.SnapsAffectedByTask#snap-setup", sab.Pos(), "tasks carrying a snap-setup name their snap", "SnapsAffectedByTask no longer consults the task's snap-setup")
 }
 
